@@ -43,10 +43,11 @@ def unwrap(x):
     return x
 
 
-def op_args(op):
-    """fresh argument objects for every use"""
+def op_args(op, fn_resolver=None):
+    """fresh argument objects for every use; '@fn:name' stands for a student function handed back as a callback"""
     if 'args_src' in op:
-        return [eval(src, {'__builtins__': __builtins__}) for src in op['args_src']]
+        return [fn_resolver(src[4:]) if src.startswith('@fn:') else eval(src, {'__builtins__': __builtins__})
+                for src in op['args_src']]
     return copy.deepcopy(list(op.get('args', ())))
 
 
@@ -235,7 +236,7 @@ class SbxRun:
             elif kind == 'run':
                 refres = self.ref.run(op.get('code'), op.get('filename'), fault=rfault)
             elif kind == 'call':
-                rargs = op_args(op)
+                rargs = op_args(op, lambda n: self.ref.ns[n])
                 rkw = copy.deepcopy(dict(op.get('kwargs', {})))
                 rkw.update(copy.deepcopy(op.get('function_kwargs') or {}))
                 kwl = op.get('kwargs_locals') or {}
@@ -280,7 +281,7 @@ class SbxRun:
                     ret = C.run(code=op.get('code'), filename=op.get('filename'), inputs=inputs,
                                 threaded=op.get('threaded'), before=op.get('before'), after=op.get('after'))
                 elif kind == 'call':
-                    ret = C.call(op['fn'], *op_args(op), inputs=inputs, threaded=op.get('threaded'),
+                    ret = C.call(op['fn'], *op_args(op, sb.get_function), inputs=inputs, threaded=op.get('threaded'),
                                  target=op.get('target', '_'), args_locals=op.get('args_locals'),
                                  function_kwargs=copy.deepcopy(op.get('function_kwargs')),
                                  kwargs_locals=dict((k, v) for k, v in (op.get('kwargs_locals') or {}).items()) or None,
